@@ -94,9 +94,19 @@ class Execution:
         self.final = None           # "SUCCEEDED" | "FAILED" | "STUCK" | "MAXINV" | "HANG"
         self.env_log: list = []
         self.backend.on_call = self._on_call
+        self.backend.on_env = self._on_env
+        self.trace: list = []       # the whole execution as one totally ordered event list (invocations + environment)
 
     def clock(self):
         return self._sched.now if self._sched is not None else self.now
+
+    def _on_env(self, kind, oid, outcome):
+        d = {"ev": "EnvTimer" if kind == "timer" else "EnvExternal", "id": oid, "outcome": outcome, "inv": self.rec.inv}
+        if self._sched is not None:
+            self._sched.log(d.pop("ev"), **d, mid=True)
+        else:
+            d["th"] = "env"
+            self.trace.append(d)
 
     def _on_call(self, kind, info):
         s = self._sched
@@ -104,7 +114,7 @@ class Execution:
             return
         if kind == "ApiCall":
             s.progress()
-            s.log("ApiCall", n=info["n"], token=info["token"], updates=[[i[:8], a] for i, a in info["updates"]],
+            s.log("ApiCall", n=info["n"], token=info["token"], updates=[[i, a] for i, a in info["updates"]],
                   inv=self.rec.inv)
         elif kind == "ApiReturn":
             s.progress()
@@ -218,6 +228,7 @@ class Execution:
         sched.events.append({"seq": len(sched.events), "t": round(self.now - ds.EPOCH0, 3), "th": "env", "ev": "InvEnd",
                              "inv": inv, "outcome": r.outcome, "verdict": r.verdict,
                              "exc": type(r.exc).__name__ if r.exc else None})
+        self.trace.extend(sched.events)
         self.invocations.append(r)
         return r
 
@@ -264,8 +275,6 @@ class Execution:
             ok = self.backend.complete_external(oid, outcome, error=err)
         if ok:
             self.env_log.append(("ext", oid, outcome, mid))
-            if self._sched is not None:
-                self._sched.log("EnvExternal", id=oid[:8], outcome=outcome, mid=True)
         return ok
 
     def wake(self) -> bool:
@@ -273,8 +282,8 @@ class Execution:
         be = self.backend
         timers = sorted(be.timers)
         exts = [o for o in be.pending_externals() if self._ext_outcome(o)[0] != "NEVER"]
-        if be.changed:
-            return True   # something already changed since the invocation's last view (e.g. mid-invocation event)
+        if be.woke:
+            return True   # a timer fired / an external event arrived while the invocation was still running
         order = self.sc.get("ext_order", "random")
         choose_ext = bool(exts) and (not timers or order == "ext_first" or (order == "random" and self.rng.random() < 0.5))
         if choose_ext:
